@@ -322,6 +322,9 @@ struct RunCtx
     std::vector<std::uint64_t>* nontrivial = nullptr;  // distinct-case hashes
     // known-finding trigger keys the interpreter must stay out of (decidable before execution)
     std::vector<std::string> avoid;
+    // signature findings: non-corrupting known defects that are counted instead of reported
+    std::vector<std::string> known;
+    std::vector<std::uint64_t> known_hits;
     bool avoids(const char* key) const
     {
         for (const auto& k : avoid)
@@ -352,17 +355,41 @@ inline bool is_fatal_class(const char* cls)
     return true;
 }
 
-inline void report(PropMask props, const char* cls, const std::string& key)
+// C17 speaks about leaks, double frees, object lifetimes and validity of the operands after a failed allocation
+inline bool c17_relevant(const char* cls)
+{
+    static const char* const REL[] = {"leak", "double-free", "free-unknown-pointer", "free-wrong-size",
+                                      "free-foreign-allocator", "never-destroyed", "destroy-not-alive",
+                                      "live-not-held", "held-not-live", "held-object-not-alive", "use-of-dead-object",
+                                      "clobbered-alive-object", "alive-in-freed-block", "construct-over-live-object",
+                                      "size-mismatch", "empty-mismatch", "value-mismatch", "not-in-live-block",
+                                      "address-changed", "capacity-mismatch", "fixed-size-mismatch"};
+    for (auto* n : REL)
+        if (std::strcmp(n, cls) == 0) return true;
+    return false;
+}
+
+inline void report(PropMask props, const char* cls, const std::string& key, const char* sig = nullptr)
 {
     HarnessScope hs;
     RunCtx* r = g_run;
     if (!r) return;
-    if (r->fault_seen || g_heap.fault_fired) props |= pm(C17);
+    if (sig)
+    {
+        for (std::size_t i = 0; i < r->known.size(); ++i)
+            if (r->known[i] == sig)
+            {
+                if (r->known_hits.size() < r->known.size()) r->known_hits.resize(r->known.size());
+                ++r->known_hits[i];
+                return;
+            }
+    }
+    if ((r->fault_seen || g_heap.fault_fired) && c17_relevant(cls)) props |= pm(C17);
     if (props & pm(r->focus))
     {
         if (!r->focus_viol.set)
         {
-            r->focus_viol = Violation{true, props, cls, key, r->step, r->op_kind};
+            r->focus_viol = Violation{true, props, cls, sig ? std::string(sig) + ": " + key : key, r->step, r->op_kind};
         }
         r->stop = true;
         return;
